@@ -92,6 +92,10 @@ def build(run):
                        f"Hedge.name = lower-cased class name: {ok1}; HedgeFactory registers h().name -> h: {ok2}; name overridden in {overrides}"))
     except NotFound as ex_:
         run.add(static("factory.HedgeFactory/registration", False, f"not found: {ex_}"))
+    ns = 400 if run.tier == "quick" else 20000
+    run.bounded("hedge.*.hedge/sampled_formula_and_arrays.runtime", "contracts.hedges", "replay", [dict(clause="sampled", hedge=c, vals={"seed": run.seed, "n": ns}) for c in C.HEDGES],
+                bound=f"per hedge: {ns} exact dyadic points k/2^20 and {ns} random doubles of [0,1] plus 0.5 and its neighbours - the documented formula to 2 ulp, not(not(x)) == x on the "
+                      "grid; arrays of shape (), (4,), (2,3), (2,1,1) against their elements one by one (same shape); a second call after the caller scaled the first result in place")
     run.bounded("factory.HedgeFactory/registration.runtime", "contracts.hedges", "replay", [dict(clause="registration", hedge="Any", vals={})],
                 bound="the 6 registered hedge names, constructed through the live factory (A-REFLECT cross-check)")
 
